@@ -93,4 +93,41 @@ theorem exec_append (v : Variant) (sys : Sys) (s1 s2 : List Nat) :
     exec v sys (s1 ++ s2) = exec v (exec v sys s1) s2 := by
   simp [exec, List.foldl_append]
 
+/-! ### equations of `step` at its branching actions -/
+
+theorem after_eq {v : Variant} {sys : Sys} {t : Nat} {a : Act} {rest : List Act} {s' : State} {new : List Act}
+    (h : step v sys.st a = (s', new)) : after v sys t a rest = ⟨s', sys.ts.set t (new ++ rest)⟩ := by
+  simp [after, h]
+
+theorem step_respLookup_none {v : Variant} {s : State} {id : Int} {ok : Bool} {data : Bytes}
+    (h : s.outstanding.lookup id = none) : step v s (.respLookup id ok data) = (s, []) := by
+  simp [step, h]
+
+theorem step_respLookup_some {v : Variant} {s : State} {id : Int} {ok : Bool} {data : Bytes} {c : Consumer}
+    (h : s.outstanding.lookup id = some c) :
+    step v s (.respLookup id ok data) =
+      ({ s with outstanding := mapDel s.outstanding id
+                hits := s.hits ++ [(id, c, replyOf ok data)]
+                premature := s.premature || !s.fired },
+       [.respConsume id c (replyOf ok data), .respCheck]) := by
+  simp [step, h]
+
+theorem step_respCheck_neg {v : Variant} {s : State} (h : ¬ (s.outstanding.isEmpty && s.onAll) = true) :
+    step v s .respCheck = (s, []) := by
+  simp only [step, h]; rfl
+
+theorem step_respCheck_repaired {s : State} (h : (s.outstanding.isEmpty && s.onAll) = true) :
+    step .repaired s .respCheck = ({ s with onAll := false }, [.complete]) := by
+  simp only [step, h]; rfl
+
+theorem step_respCheck_defective {s : State} (h : (s.outstanding.isEmpty && s.onAll) = true) :
+    step .defective s .respCheck = (s, [.complete]) := by
+  simp only [step, h]; rfl
+
+theorem wsum_map_clientWrite (f : Act → Nat) (hf : ∀ id, f (.clientWrite id) = 0) (q : List Int) :
+    wsum f (q.map .clientWrite) = 0 := by
+  induction q with
+  | nil => rfl
+  | cons x xs ih => simp [hf, ih]
+
 end Gate.C13
